@@ -161,9 +161,77 @@ let rec split_texts (toks : string list) (cur : string list) : string list list 
   | ";;" :: r -> List.rev cur :: split_texts r []
   | t :: r -> split_texts r (t :: cur)
 
+(* ---------------------------------------------------------------- the PHASE stream (Model/Phases.v)
+   input: "PHASE failat=K SRC1 ;; SRC2 ;; .." where SRCi is real source text of the small language
+   of Phases.classify.  The tokenizer below is the only hand-written part: ( ) [ ] and atoms; an atom
+   is an int literal 0..99, one of the symbols the generator dispatches on, a name, or - anything
+   else, e.g. 12abc - a lexer error (TBad). *)
+let ph_names : (string, int) Hashtbl.t = Hashtbl.create 16
+let ph_atom (a : string) : tok =
+  let n = String.length a in
+  let is_digit c = c >= '0' && c <= '9' in
+  let is_alpha c = (c >= 'a' && c <= 'z') || (c >= 'A' && c <= 'Z') in
+  let all p = let r = ref true in String.iter (fun c -> if not (p c) then r := false) a; !r in
+  let z i = z_of_string (string_of_int i) in
+  if all is_digit then (if n <= 2 then TAtom (z (int_of_string a)) else TAtom (z 150))
+  else if is_alpha a.[0] && all (fun c -> is_digit c || is_alpha c) then
+    (match a with
+     | "for" -> TAtom (z 100) | "break" -> TAtom (z 101) | "continue" -> TAtom (z 102) | "fn" -> TAtom (z 103)
+     | "begin" -> TAtom (z 104) | "def" -> TAtom (z 105) | "failk" -> TAtom (z 106) | "false" -> TAtom (z 107)
+     | "let" -> TAtom (z 108)
+     | _ ->
+       let i = (match Hashtbl.find_opt ph_names a with
+                | Some i -> i
+                | None -> let i = 200 + Hashtbl.length ph_names in Hashtbl.add ph_names a i; i) in
+       TAtom (z i))
+  else TBad
+
+let ph_tokenize (s : string) : tok list =
+  let out = ref [] and cur = Buffer.create 8 in
+  let flush () = if Buffer.length cur > 0 then (out := ph_atom (Buffer.contents cur) :: !out; Buffer.clear cur) in
+  String.iter (fun c ->
+    match c with
+    | '(' -> flush (); out := TOpen :: !out
+    | ')' -> flush (); out := TClose :: !out
+    | '[' -> flush (); out := TLB :: !out
+    | ']' -> flush (); out := TRB :: !out
+    | ' ' | '\n' | '\t' -> flush ()
+    | c -> Buffer.add_char cur c) s;
+  flush (); List.rev !out
+
+let rec split_on_sep (s : string) (sep : string) : string list =
+  let n = String.length s and m = String.length sep in
+  let rec find i = if i + m > n then -1 else if String.sub s i m = sep then i else find (i + 1) in
+  match find 0 with
+  | -1 -> [s]
+  | i -> String.sub s 0 i :: split_on_sep (String.sub s (i + m) (n - i - m)) sep
+
+let ph_show_val = function
+  | PvInt z -> string_of_z z | PvNil -> "nil" | PvFalse -> "false" | PvFn -> "fn"
+
+let ph_show (o, ((rest, loops), data)) : string =
+  let oc = (match o with
+    | OVal v -> "V:" ^ ph_show_val v
+    | OReadErr -> "R" | OCompileErr -> "C"
+    | ORunErr XUser -> "X:user" | ORunErr _ -> "X:other"
+    | OUnspec -> "UNSPEC" | OFuel -> "FUEL") in
+  Printf.sprintf "%s@%d,%d,%d" oc (if rest then 1 else 0) (int_of_nat loops) (int_of_nat data)
+
+let run_phase (id : string) (body : string) : unit =
+  Hashtbl.reset ph_names;
+  (* body = "PHASE failat=K rest" *)
+  let body = String.sub body 6 (String.length body - 6) in
+  let sp = String.index body ' ' in
+  let k = int_of_string (String.sub body 7 (sp - 7)) in
+  let rest = String.sub body (sp + 1) (String.length body - sp - 1) in
+  let texts = List.map ph_tokenize (split_on_sep rest " ;; ") in
+  let obs = psession_obs (nat_of_int 400) (nat_of_int k) texts i_init in
+  Printf.printf "%s\t%s\t-\n%!" id (String.concat " ;; " (List.map ph_show obs))
+
 let () =
   iter_lines (fun line ->
     match split_tab line with
+    | id :: body :: _ when String.length body > 6 && String.sub body 0 6 = "PHASE " -> run_phase id body
     | id :: body :: _ ->
       (try
         let fuel = ref 300 and failat = ref 0 in
